@@ -140,6 +140,14 @@ CHECKS['C19'] = dict(
     note='trusted: TLC, Determinism.tla; hash(molecule) is excluded (Python randomises string hashes per process by design); no ordering between processes is assumed',
     technique='TLC validation of merged multi-process observation traces against a one-value-per-(input, view) specification',
     design='5/C19')
+CHECKS['C17'] = dict(
+    text='For corpus and special molecules over a parameter grid (radii, multiplicity cap 0-5, lengths 2^6..2^12, 0-4 active bits) TLC enumerates '
+         'the simple paths itself and requires _fragments() to be exactly that multiset with the right descriptors, selects the hashes admitted by '
+         'the multiplicity cap, validates the Morgan identifiers radius by radius as a partition refinement, folds the 64-bit hashes bit by bit '
+         'and compares the hash sets of a renumbered re-inserted copy.',
+    note='trusted: TLC, Fingerprint.tla; Python hash values are opaque (logged as strings / bit lists; identifiers replaced by order-preserving ranks)',
+    technique='TLC enumeration of simple paths / partition refinement / bit folding vs recorded fingerprint internals',
+    design='5/C17')
 PENDING = {}
 
 
